@@ -14,6 +14,7 @@ def in_domain(script):
 
 def run(chk):
     c_exe, m_exe = vlib.prepare_area(chk, dlist, leanchecker=True)
+    vlib.translator_tie(chk, "dlist", dlist.TIE_MODULE, dlist.TIE_THEOREMS)
     if c_exe:
         vlib.run_scripts(chk, dlist, c_exe, m_exe, dlist.corpus(), dlist.oracle)
         if chk.tier == "quick":
@@ -37,6 +38,8 @@ def run(chk):
             near = [small + [op] for op in ("pushb 1 40", "pushb 2 40", "pushb 3 40", "back 1", "back 2", "rev 1", "rev 2",
                                             "foreach 1 f -1 0", "foreach 1 r -1 0", "popf 1", "popb 1", "popb 2")]
             vlib.run_scripts(chk, dlist, c_exe, m_exe, [s for s in near if in_domain(s)], dlist.oracle)
+    if c_exe and chk.oracle_failures:
+        vlib.shrink_failures(chk, dlist, c_exe, dlist.oracle, in_domain)
     return chk.finish()
 
 
